@@ -25,6 +25,13 @@ def _enc_val(n):
     # texts and byte strings carry line ends of every kind and a non-ASCII character: what comes back must be the very same
     # characters / bytes (no newline translation, no re-encoding)
     tail = ["", "\r\n", "\r", "\n\u00e9"][(n // 3) % 4]
+    if n % 7 == 5:
+        # a table whose row labels are not 0..n-1 (a filtered / labelled frame): labels, types and cells must come back
+        try:
+            import pandas
+            return pandas.DataFrame({"v": [n, n + 1], "s": ["x%d" % n, "y"]}, index=[n + 10, n + 3] if n % 2 else ["r%d" % n, "q"])
+        except ImportError:
+            pass
     return [Obj(n), "s%d%s" % (n, tail), ("b%d%s" % (n, tail)).encode("utf-8")][n % 3]
 
 
@@ -38,6 +45,15 @@ def _dec_val(v):
     if isinstance(v, Obj):
         return v.n
     import re
+    if type(v).__name__ == "DataFrame":
+        try:
+            n = int(v["v"].iloc[0])
+            want = _enc_val(n)
+            if type(want).__name__ == "DataFrame" and v.equals(want) and list(v.index) == list(want.index) and list(v.dtypes) == list(want.dtypes):
+                return n
+        except BaseException:
+            pass
+        return "UNDECODABLE:frame %r index %r" % (v.to_dict(orient="list"), list(v.index))
     if isinstance(v, str) and v[:1] == "s":
         m = re.match(r"s(-?\d+)", v)
         if m and v == "s%s%s" % (m.group(1), _tail(int(m.group(1)))):
